@@ -732,12 +732,12 @@ Lemma compile_example :
   map (galone w_name w_gen w_compile w_behave w_compile_ginvs w_same_fs) [0; 1] = [Some ("env/m", 0%Z); Some ("", 0%Z)].
 Proof. vm_compute. split; reflexivity. Qed.
 
-(* a run in <dir>/magefiles (directory 1) next to a run in <dir> (directory 0, which has tagged magefiles of its own AND that
-   subdirectory): the start-up of the invocation in <dir> removes the generated file of <dir>/magefiles between its Chtimes
+(* BEFORE fix 62b109f ([g_sub := Some _]): a run in <dir>/magefiles (directory 1) next to a run in <dir> (directory 0, which
+   has tagged magefiles of its own AND that subdirectory): the start-up of the invocation in <dir> removes the generated file of <dir>/magefiles between its Chtimes
    and its build *)
 Definition w_sub_ginvs : list ginv := [{| g_inv := w_inv 0 false; g_cmd := CRun; g_sub := Some 1 |}; as_run (w_inv 1 false)].
 Definition w_sub_sched := repeat 1 8 ++ repeat 0 12 ++ repeat 1 4.
-Lemma magefiles_subdir_refuted_ex :
+Lemma magefiles_subdir_before_repair_refuted_ex :
   exists name gen compile behave ginvs fs0 sched,
     NoDup (map (fun g => i_dir (g_inv g)) ginvs) /\
     result_of (grun name gen compile behave ginvs fs0 sched) 1 = Some fail /\
